@@ -72,6 +72,14 @@ def run_shard(args):
         os.path.join(core.HOME, 'replays'),
     )
     ctx.rec.hit('shards-run-with-the-machine-time-zone-set-to:' + zone)
+    if os.environ.get('SPOWTD_VERIF_OPTIMIZE') == '1':
+        ctx.rec.hit('shards-run-with-assert-statements-of-spowtd-compiled-away')
+    if os.environ.get('SPOWTD_VERIF_WARNINGS') == 'error':
+        # a caller who runs with warnings as errors (python -W error): RuntimeWarnings attributed to
+        # spowtd's own modules are raised (the harness and the libraries keep the default)
+        import warnings
+        warnings.filterwarnings('error', category=RuntimeWarning, module=r'spowtd(\..*)?$')
+        ctx.rec.hit('shards-run-with-runtime-warnings-from-spowtd-raised-as-errors')
     try:
         mod.run(ctx)
     except Exception:  # harness failure: inconclusive, never a violation
@@ -150,6 +158,12 @@ def run_tier(args):
         # string hashing is part of the environment too: a fixed, different hash seed per shard
         # (reproducible, but set / dict-of-set orders of strings differ between shards)
         env = dict(os.environ, PYTHONHASHSEED=str(i))
+        if nshards > 1 and i == nshards - 1:
+            # the last shard runs spowtd compiled as `python -O` would (assert statements dropped)
+            env['SPOWTD_VERIF_OPTIMIZE'] = '1'
+        if nshards > 1 and i == 1:
+            # the second shard runs like a caller with warnings as errors (see run_shard)
+            env['SPOWTD_VERIF_WARNINGS'] = 'error'
         procs.append((i, out, log, subprocess.Popen(cmd, stdout=log, stderr=subprocess.STDOUT, env=env)))
     deadline = t0 + WATCHDOG_S[args.tier]
     dicts = []
